@@ -79,6 +79,8 @@ func c29Tables() []c29Rec {
 	}
 	var out []c29Rec
 	for _, t := range tabs {
+		// the record written before the first transition: still in the default state
+		out = append(out, c29Rec{t.t, t.r, swap.Default})
 		for _, s := range t.s {
 			out = append(out, c29Rec{t.t, t.r, s})
 		}
